@@ -1,6 +1,366 @@
 import Fabio.Driver.Proto
-namespace Fabio.Driver.C16
-open Lean Fabio.Driver
+import Fabio.Model.C16
+/-!
+Driver handlers for C16.
 
-def streams : List (String × Handler) := []
+`c16.pool`  — `agree`: the pool model (`World.step`) predicts every observable of the real pool (reused /
+              dialled / error with connection ids, key set after each cleanup, which connections the closer
+              got, which are live at the end).  `spec`: an independent trace checker over the implementation's
+              own output (it does not run the model): a `get` for a key whose last connection was neither
+              closed nor removed by a cleanup that saw a table without the key must be `reused` with the same
+              id; a `dialled` id is fresh; after a cleanup every key is a target URL of the table of that
+              moment; every live connection a cleanup removed was closed.
+`c16.call`  — see below.
+-/
+namespace Fabio.Driver.C16
+open Lean Fabio Fabio.Driver Fabio.Model.C16
+open Fabio.Model.Route (Str Table Route Target)
+
+def s2l (s : String) : Str := s.toList
+
+def getStrD (j : Json) (k : String) : String := (j.getObjValAs? String k).toOption.getD ""
+def getBoolD (j : Json) (k : String) : Bool := (j.getObjValAs? Bool k).toOption.getD false
+def getNatD (j : Json) (k : String) : Nat := (j.getObjValAs? Nat k).toOption.getD 0
+def getNat? (j : Json) (k : String) : Option Nat := (j.getObjValAs? Nat k).toOption
+def getArrD (j : Json) (k : String) : List Json :=
+  match j.getObjVal? k with
+  | .ok (.arr a) => a.toList
+  | _ => []
+def getObj? (j : Json) (k : String) : Option Json :=
+  match j.getObjVal? k with
+  | .ok .null => none
+  | .ok v => some v
+  | _ => none
+def natsOf (js : List Json) : List Nat := js.filterMap fun j => (j.getNat?).toOption
+def natJ (n : Nat) : Json := Json.num (JsonNumber.fromNat n)
+def natArr (l : List Nat) : Json := Json.arr (l.map natJ).toArray
+
+def insertNat (n : Nat) : List Nat → List Nat
+  | [] => [n]
+  | x :: xs => if n < x then n :: x :: xs else if n = x then x :: xs else x :: insertNat n xs
+/-- sorted, duplicate-free -/
+def sortNats (l : List Nat) : List Nat := l.foldr insertNat []
+
+/-! ### route tables from the generated specs -/
+
+structure RSpec where
+  host : String
+  path : String
+  urls : List Nat
+deriving Repr
+
+def parseRoutes (j : Json) (k : String) : List RSpec :=
+  (getArrD j k).map fun r => { host := getStrD r "host", path := getStrD r "path", urls := natsOf (getArrD r "urls") }
+
+def keyOf (i : Nat) : Str := (toString i).toList
+def idxOf (k : Str) : Nat := (String.ofList k).toNat!
+
+def tableOf (rs : List RSpec) : Table :=
+  rs.map fun r => (s2l r.host,
+    [({ host := s2l r.host, path := s2l r.path,
+        targets := r.urls.map fun u => ({ service := [], tags := [], opts := [], url := keyOf u, fixedWeight := 0 } : Target) } : Route)])
+
+/-! ### c16.pool -/
+
+/-- the key whose URL has no host: `grpc.DialContext` fails for it (harness/c16/pool.go) -/
+def noHostKey : Nat := 5
+
+inductive POp where
+  | get (k : Nat)
+  | shut (k : Nat)
+  | table (rs : List RSpec)
+  | cleanup
+  | bad
+deriving Repr
+
+def parseOps (inp : Json) : List POp :=
+  (getArrD inp "ops").map fun o =>
+    match getStrD o "op" with
+    | "get" => .get (getNatD o "k")
+    | "shut" => .shut (getNatD o "k")
+    | "table" => .table (parseRoutes o "routes")
+    | "cleanup" => .cleanup
+    | _ => .bad
+
+def toEvent : POp → Option Event
+  | .get k => some (.get (keyOf k) (k != noHostKey))
+  | .shut k => some (.shut (keyOf k))
+  | .table rs => some (.setTable (tableOf rs))
+  | .cleanup => some .cleanup
+  | .bad => none
+
+def noLookup : Table → Str → Str → Option Str := fun _ _ _ => none
+
+def keysJson (p : Pool) : List Nat := sortNats (p.keys.map idxOf)
+
+def obsJson (w' : World) : POp → Obs → Json
+  | .get _, .get _ (.reused i) => Json.mkObj [("op", "get"), ("r", "reused"), ("id", natJ i)]
+  | .get _, .get _ (.dialled i) => Json.mkObj [("op", "get"), ("r", "dialled"), ("id", natJ i)]
+  | .get _, _ => Json.mkObj [("op", "get"), ("r", "error")]
+  | .shut _, _ => Json.mkObj [("op", "shut")]
+  | .table _, _ => Json.mkObj [("op", "table")]
+  | .cleanup, _ =>
+    let ks := keysJson w'.pool
+    if ks.isEmpty then Json.mkObj [("op", "cleanup")] else Json.mkObj [("op", "cleanup"), ("keys", natArr ks)]
+  | .bad, _ => Json.null
+
+/-- run the model over the ops; returns final world, observation JSONs, ids handed to the closer -/
+def runPoolModel (ops : List POp) : World × List Json × List Nat :=
+  ops.foldl (fun (acc : World × List Json × List Nat) op =>
+    let (w, js, handed) := acc
+    match toEvent op with
+    | none => (w, js ++ [Json.null], handed)
+    | some e =>
+      let (w', o) := w.step some noLookup e
+      let h := match o with
+        | .closed cs => cs.map (·.id)
+        | _ => []
+      (w', js ++ [obsJson w' op o], handed ++ h)) ({}, [], [])
+
+/-- reference bookkeeping for the spec: per key the last connection id handed out, dropped when the
+connection is closed or a cleanup sees a table without the key -/
+structure Ref where
+  last : List (Nat × Nat) := []     -- key ↦ id
+  urls : List Nat := []             -- target URL indices of the current table
+  maxId : Option Nat := none
+  ok : Bool := true
+  reused : Bool := false
+  dropped : Bool := false
+  dialErr : Bool := false
+
+def Ref.fail (r : Ref) : Ref := { r with ok := false }
+
+def specStep (r : Ref) (op : POp) (o : Json) : Ref :=
+  match op with
+  | .get k =>
+    let res := getStrD o "r"
+    match res, getNat? o "id" with
+    | "reused", some id =>
+      if r.last.lookup k == some id then { r with reused := true } else r.fail
+    | "dialled", some id =>
+      let fresh := match r.maxId with
+        | none => true
+        | some m => decide (m < id)
+      if fresh && (r.last.lookup k).isNone then
+        { r with last := (k, id) :: r.last, maxId := some id }
+      else r.fail
+    | "error", none => if (r.last.lookup k).isNone then { r with dialErr := true } else r.fail
+    | _, _ => r.fail
+  | .shut k => { r with last := r.last.filter (·.1 != k) }
+  | .table rs => { r with urls := rs.flatMap (·.urls) }
+  | .cleanup =>
+    let keys := natsOf (getArrD o "keys")
+    let expectKept := sortNats ((r.last.filter fun kv => r.urls.contains kv.1).map (·.1))
+    -- every key after the cleanup is a target of the table; a live connection of a present backend stays
+    let ok := keys.all (fun k => r.urls.contains k) && expectKept.all (fun k => keys.contains k)
+      && keys.all (fun k => (r.last.lookup k).isSome)   -- and no closed connection stays pooled
+    let last' := r.last.filter fun kv => r.urls.contains kv.1
+    { r with last := last', ok := r.ok && ok, dropped := r.dropped || last'.length < r.last.length }
+  | .bad => r.fail
+
+def poolH : Handler := fun inp impl => do
+  let ops := parseOps inp
+  let (w, js, handed) := runPoolModel ops
+  let live := sortNats ((w.pool.filter fun kc => !kc.2.shut).map (·.2.id))
+  let model := Json.mkObj [
+    ("closed", natArr (sortNats handed)), ("final_keys", natArr (keysJson w.pool)), ("final_live", natArr live),
+    ("handed", natArr (sortNats handed)), ("obs", Json.arr js.toArray)]
+  let iobs := getArrD impl "obs"
+  let r := if iobs.length != ops.length then ({} : Ref).fail
+           else (ops.zip iobs).foldl (fun r (p : POp × Json) => specStep r p.1 p.2) ({} : Ref)
+  let handedI := natsOf (getArrD impl "handed")
+  let closedI := natsOf (getArrD impl "closed")
+  -- at the end exactly the connections last handed out and never closed/removed are live: nothing leaks
+  let liveI := natsOf (getArrD impl "final_live")
+  let spec := r.ok && handedI == closedI && liveI == sortNats (r.last.map (·.2))
+  let tag := (if r.reused then "reuse" else "noreuse") ++ (if r.dropped then "+drop" else "") ++ (if r.dialErr then "+dialerr" else "")
+  return ({ model := model, agree := model == impl, spec := spec,
+            nontrivial := r.reused || r.dropped, tag := tag } : Verdict).toJson
+
+/-! ### c16.call
+
+`agree`: the interceptor model predicts the class of every call — `internal` (unparsable method), `notfound`,
+or `forward` to one of the targets the real `Table.Lookup` names *for the host and path the model computes*
+(`dstHost md`, parsed path; the harness ships the table's answers for the empty host and for every `dsthost`
+value, so a wrong host choice selects a different answer) — and for plain method names the parsed path is
+the method itself.  `spec`: the sentences of the property on the recorded observations — no route ⇒
+`NotFound` and no backend handler ran; a routed call reached exactly one backend of the matching route,
+which saw the caller's method, custom metadata and messages unmodified and in order; the caller saw the
+backend's messages, trailers, status code and message, and its headers whenever it sent a message;
+consecutive calls to a backend that stayed in the table arrive on one connection. -/
+
+open Spec in
+def parseSMD (j : Json) (k : String) : SMD :=
+  (getArrD j k).map fun e => (getStrD e "k", (getArrD e "v").map fun v => match v with | .str s => s | _ => "")
+
+def strsOf (j : Json) (k : String) : List String :=
+  (getArrD j k).map fun v => match v with | .str s => s | _ => ""
+
+/-- [key, value] pairs in sending order → per key the values in order -/
+def groupPairs (j : Json) (k : String) : Spec.SMD :=
+  (getArrD j k).foldl (fun (acc : Spec.SMD) p =>
+    match p with
+    | .arr a =>
+      match a.toList with
+      | [.str key, .str v] =>
+        let key := key.toLower
+        if acc.any (·.1 == key) then acc.map fun e => if e.1 == key then (e.1, e.2 ++ [v]) else e
+        else acc ++ [(key, [v])]
+      | _ => acc
+    | _ => acc) []
+
+def toMD (m : Spec.SMD) : MD := m.map fun e => (s2l e.1, e.2.map s2l)
+
+structure CallTrack where
+  /-- backend index ↦ connection id of the last call that reached it (forgotten when the backend's URL is
+  absent from a table: the real 5 s cleanup may drop the connection at any moment then) -/
+  lastConn : List (Nat × Nat) := []
+  urls : List Nat := []
+  agree : Bool := true
+  spec : Bool := true
+  failTag : String := ""
+  classes : List String := []
+  model : List Json := []
+  forwards : Nat := 0
+  reused : Nat := 0
+
+def CallTrack.note (t : CallTrack) (cls : String) (agree spec : Bool) (tag : String) : CallTrack :=
+  { t with agree := t.agree && agree, spec := t.spec && spec,
+           failTag := if t.failTag.isEmpty && !(agree && spec) then tag else t.failTag,
+           classes := if t.classes.contains cls then t.classes else t.classes ++ [cls],
+           model := t.model ++ [Json.str cls] }
+
+def callStep (t : CallTrack) (st o : Json) : CallTrack :=
+  match getStrD st "op" with
+  | "table" =>
+    let urls := (parseRoutes st "routes").flatMap (·.urls)
+    { t with urls := urls, lastConn := t.lastConn.filter (fun kv => urls.contains kv.1),
+             model := t.model ++ [Json.str "table"] }
+  | "call" =>
+    let method := getStrD st "method"
+    let sentMD := groupPairs st "md"
+    let sentMsgs := strsOf st "msgs"
+    let script := (getObj? st "script").getD (Json.mkObj [])
+    let did : Spec.BackendDid := { header := groupPairs script "header", msgs := strsOf script "msgs",
+                                   trailer := groupPairs script "trailer", code := getNatD script "code",
+                                   message := getStrD script "message" }
+    let caller := (getObj? o "caller").getD (Json.mkObj [])
+    let saw : Spec.CallerSaw := { header := parseSMD caller "header", msgs := strsOf caller "msgs",
+                                  trailer := parseSMD caller "trailer", code := getNatD caller "code",
+                                  message := getStrD caller "message" }
+    let hits := natsOf (getArrD o "hits")
+    let nhits := hits.foldl (· + ·) 0
+    let backend := getObj? o "backend"
+    let pathOK := getBoolD o "path_ok"
+    let path := getStrD o "path"
+    -- the parser assumption of `grpc_lookup_args_plain`, checked against net/url
+    let ppOK := !plainMethod (s2l method) || (pathOK && path == method)
+    let host := String.ofList (dstHost (toMD sentMD))
+    let entry := (getArrD o "oracle").find? fun e => getStrD e "h" == host
+    if !pathOK then
+      let ok := saw.code == codeInternal && nhits == 0 && backend.isNone
+      t.note "internal" (ok && ppOK) (nhits == 0) "internal-but-backend-contacted"
+    else
+    match entry with
+    | none => t.note "oracle-missing" false true "oracle-missing"
+    | some e =>
+      let urls := natsOf (getArrD e "urls")
+      if urls.isEmpty then
+        let ok := saw.code == codeNotFound && saw.message == "no route found" && nhits == 0 && backend.isNone
+                    && getNatD o "noroute" == 1
+        -- property: no matching route ⇒ NotFound without contacting a backend
+        let spec := saw.code == codeNotFound && nhits == 0 && backend.isNone
+        t.note "notfound" (ok && ppOK) spec (if saw.code != codeNotFound then "noroute-wrong-status" else "noroute-backend-contacted")
+      else
+        match backend with
+        | none => t.note "forward" false false (if saw.code == codeNotFound then "route-exists-but-notfound" else "routed-call-reached-no-backend")
+        | some b =>
+          let idx := getNatD b "idx"
+          let conn := getNatD b "conn"
+          let inSet := urls.contains idx && nhits == 1
+          let bsaw : Spec.BackendSaw := { method := getStrD b "method", md := parseSMD b "md", msgs := strsOf b "msgs" }
+          let drained := getBoolD b "drained"
+          let sentNorm := strsOf o "sent_norm"
+          let replyNorm := strsOf o "reply_norm"
+          let methodOK := bsaw.method == method
+          let mdOK := Spec.mdCarried sentMD bsaw.md
+          let msgsFwd := !drained || bsaw.msgs == sentMsgs
+          let msgsBack := saw.msgs == did.msgs
+          let statusOK := saw.code == did.code && saw.message == did.message
+          let trailerOK := Spec.mdCarried did.trailer saw.trailer
+          let headerOK := did.msgs.isEmpty || Spec.mdCarried did.header saw.header
+          let reuseOK := match t.lastConn.lookup idx with
+            | some c => c == conn
+            | none => true
+          let spec := inSet && methodOK && mdOK && msgsFwd && msgsBack && statusOK && trailerOK && headerOK && reuseOK
+          -- finding F2: the only difference is that top-level field tags were re-encoded minimally
+          let f2fwd := !msgsFwd && bsaw.msgs == sentNorm
+          let f2back := !msgsBack && saw.msgs == replyNorm
+          let tag :=
+            if !inSet then "wrong-backend"
+            else if !methodOK then "method-altered"
+            else if !mdOK then "metadata-lost-or-altered"
+            else if !reuseOK then "connection-not-reused"
+            else if !statusOK then "status-altered"
+            else if !trailerOK then "trailer-lost-or-altered"
+            else if !headerOK then "header-lost-or-altered"
+            else if (!msgsFwd && !f2fwd) || (!msgsBack && !f2back) then "message-altered"
+            else "nonminimal-tag-reencoded"
+          let t := { t with lastConn := (idx, conn) :: t.lastConn.filter (·.1 != idx), forwards := t.forwards + 1,
+                            reused := t.reused + (if (t.lastConn.lookup idx).isSome then 1 else 0) }
+          t.note "forward" (inSet && ppOK) spec tag
+  | _ => t.note "bad-step" false true "bad-step"
+
+def callH : Handler := fun inp impl => do
+  let steps := getArrD inp "steps"
+  let obs := getArrD impl "obs"
+  if steps.length != obs.length then
+    return ({ model := Json.null, agree := false, spec := true, nontrivial := false, tag := "harness-error" } : Verdict).toJson
+  let t := (steps.zip obs).foldl (fun t (p : Json × Json) => callStep t p.1 p.2) ({} : CallTrack)
+  let cls := (["forward", "notfound", "internal"].filter t.classes.contains).foldl
+    (fun a c => if a.isEmpty then c else a ++ "+" ++ c) ""
+  let tag := if t.failTag.isEmpty then (if t.reused > 0 then cls ++ "+reuse" else cls) else t.failTag
+  return ({ model := Json.arr t.model.toArray, agree := t.agree, spec := t.spec,
+            nontrivial := t.forwards > 0, tag := tag } : Verdict).toJson
+
+/-! ### c16.race — concurrent first calls (`Props.C16.race_outcomes`): every caller gets the one pooled
+connection; once the backend has left the table and a cleanup has run, no connection to it stays open. -/
+
+def raceH : Handler := fun inp impl => do
+  let n := getNatD inp "n"
+  let model := Json.mkObj [("distinct", natJ 1), ("keys_left", natJ 0), ("open", natJ 0), ("shared", true), ("usable", true)]
+  let distinct := getNatD impl "distinct"
+  let opn := getNatD impl "open"
+  let spec := opn == 0 && getBoolD impl "usable" && getBoolD impl "shared" && getNatD impl "keys_left" == 0
+  let tag := if opn > 0 then "orphan-after-race"
+             else if !getBoolD impl "usable" then "closed-connection-handed-out"
+             else if !getBoolD impl "shared" then "later-call-not-on-pooled-connection"
+             else if distinct > 1 then "several-connections-handed-out"
+             else s!"race-{n}"
+  return ({ model := model, agree := model == impl, spec := spec, nontrivial := n ≥ 2, tag := tag } : Verdict).toJson
+
+/-! ### c16.live — the director's own pool with its real cleanup timer -/
+
+def liveH : Handler := fun inp impl => do
+  let drop := natsOf (getArrD inp "drop")
+  let bs := getArrD impl "backends"
+  let expect (b : Nat) : Json :=
+    let d := drop.contains b
+    Json.mkObj [("b", natJ b), ("dropped", d), ("first_ok", true), ("reused", true), ("notfound", d),
+                ("conn_closed", d), ("still_open", !d), ("after_same", !d), ("after_ok", true)]
+  let model := Json.mkObj [("backends", Json.arr ((List.range bs.length).map expect).toArray)]
+  -- the property's sentences, one by one, on what the backends and the caller reported
+  let bad := bs.filterMap fun j =>
+    let d := getBoolD j "dropped"
+    if !(getBoolD j "first_ok" && getBoolD j "after_ok") then some "routed-call-failed"
+    else if !getBoolD j "reused" then some "connection-not-reused"
+    else if d && !getBoolD j "notfound" then some "removed-backend-still-served"
+    else if d && !getBoolD j "conn_closed" then some "connection-to-removed-backend-kept"
+    else if !d && !getBoolD j "after_same" then some "connection-of-present-backend-dropped"
+    else none
+  return ({ model := model, agree := model == impl, spec := bad.isEmpty, nontrivial := !drop.isEmpty && bs.length > 0,
+            tag := bad.head?.getD s!"drop-{drop.length}" } : Verdict).toJson
+
+def streams : List (String × Handler) :=
+  [("c16.pool", poolH), ("c16.call", callH), ("c16.race", raceH), ("c16.live", liveH)]
 end Fabio.Driver.C16
